@@ -120,6 +120,17 @@ def loops_of(fdef):
   return out
 
 
+# methods of lists / dicts / sets / strings / regexes that do not mutate the
+# receiver (anything else called on a name counts as a possible mutation)
+NON_MUTATING_METHODS = {
+    'get', 'items', 'keys', 'values', 'copy', 'join', 'split', 'rsplit',
+    'format', 'startswith', 'endswith', 'lower', 'upper', 'strip', 'rstrip',
+    'lstrip', 'splitlines', 'match', 'index', 'count', 'isidentifier',
+    'union', 'difference', 'intersection', 'issubset', 'find', 'replace',
+    'partition', 'rpartition', 'encode', 'decode',
+}
+
+
 def assigned_names(stmts):
   """Names (and `self.x` attribute paths) assigned or mutated in statements.
 
@@ -166,7 +177,8 @@ def assigned_names(stmts):
       elif isinstance(n, ast.ExceptHandler) and n.name:
         names.add(n.name)
       elif isinstance(n, ast.Call) and isinstance(n.func, ast.Attribute):
-        target(n.func.value)
+        if n.func.attr not in NON_MUTATING_METHODS:
+          target(n.func.value)
       elif isinstance(n, ast.NamedExpr):
         target(n.target)
   return names
